@@ -262,6 +262,13 @@ pub fn history_oracles(case: &Case, imp: &[String]) -> Vec<serde_json::Value> {
                         }
                     }
                 }
+                // identifiers are only ever added through the API (the tracing level cannot change)
+                let users = |d: &str| -> Option<u64> { d.split(' ').find_map(|w| w.strip_prefix("users=")).and_then(|n| n.parse().ok()) };
+                if let (Some(a), Some(b)) = (last_msk.get(&m).and_then(|p| users(p)), users(first)) {
+                    if b < a {
+                        fail("registration-lost", format!("{op} made the master key forget {} registered identifier(s)", a - b));
+                    }
+                }
                 last_msk.insert(m, first.to_string());
                 if op == "keygen" && is_ok && second.starts_with("usk ") {
                     last_usk.insert(t[2].to_string(), second.to_string());
